@@ -1122,6 +1122,77 @@ impl<W: Write> Ctx<W> {
         self.emit(json!({"ev":"timing","parser":parser,"unit":bytes(&unit),"n":sizes,"us":times}));
     }
 
+    /// Every operation between a range with `pieces` alternatives (unit instantiated with a counter, joined by `||`)
+    /// and each small range, both ways; one `deepops` event with the time of each call.
+    pub fn deepops(&mut self, st: &Value) {
+        let unit = st.get("unit").and_then(unbytes).unwrap_or_default();
+        let pieces = st.get("pieces").and_then(|x| x.as_u64()).unwrap_or(1000);
+        let small: Vec<String> = st.get("small").and_then(|x| x.as_array()).map(|l| l.iter().filter_map(unbytes).collect()).unwrap_or_default();
+        let mut text = String::new();
+        for i in 0..pieces {
+            if i > 0 {
+                text.push_str("||");
+            }
+            text.push_str(&unit.replace("{i}", &i.to_string()));
+        }
+        let t2 = text.clone();
+        let huge = match self.call("Range::parse", move || Range::parse(&t2).ok()) {
+            Some(Some(h)) => h,
+            Some(None) => return self.skip("deepops-unparsed"),
+            None => return,
+        };
+        let h2 = huge.clone();
+        let alts = match self.call("verif_bounds", move || h2.verif_bounds().len() as u64) {
+            Some(n) => n,
+            None => return,
+        };
+        let mut ops: Vec<Value> = Vec::new();
+        let probe = Version::from((2u64, 0, 7));
+        macro_rules! timed {
+            ($name:expr, $body:expr) => {{
+                let t0 = Instant::now();
+                let r = self.call($name, $body);
+                if r.is_none() {
+                    return;
+                }
+                ops.push(json!({"name":$name,"us":t0.elapsed().as_micros().min(2_000_000_000) as u64}));
+            }};
+        }
+        {
+            let (h, p) = (huge.clone(), probe.clone());
+            timed!("satisfies", move || h.satisfies(&p));
+            let h = huge.clone();
+            timed!("min_version", move || h.min_version().is_some());
+            let h = huge.clone();
+            timed!("to_string", move || h.to_string().len());
+            let (h, l) = (huge.clone(), vec![probe.clone(), Version::from((0u64, 0, 1)), Version::from((9u64, 9, 9))]);
+            timed!("max_satisfying", move || (h.max_satisfying(&l).is_some(), h.min_satisfying(&l).is_some()));
+        }
+        for s in &small {
+            let sr = match Range::parse(s) {
+                Ok(x) => x,
+                Err(_) => continue,
+            };
+            // small minus huge only for a single-version operand: a wide one is legitimately cut into one piece per
+            // alternative of the other, and the naive sweep over the pieces is quadratic without being wrong
+            if sr.verif_bounds().iter().all(|(lo, up)| lo.is_some() && lo == up) {
+                let (h, x) = (huge.clone(), sr.clone());
+                timed!("difference(small, huge)", move || x.difference(&h).is_some());
+            }
+            let (h, x) = (huge.clone(), sr.clone());
+            timed!("difference(huge, small)", move || h.difference(&x).is_some());
+            let (h, x) = (huge.clone(), sr.clone());
+            timed!("intersect(small, huge)", move || x.intersect(&h).is_some());
+            let (h, x) = (huge.clone(), sr.clone());
+            timed!("intersect(huge, small)", move || h.intersect(&x).is_some());
+            let (h, x) = (huge.clone(), sr.clone());
+            timed!("allows_any", move || (x.allows_any(&h), h.allows_any(&x)));
+            let (h, x) = (huge.clone(), sr.clone());
+            timed!("allows_all", move || (x.allows_all(&h), h.allows_all(&x)));
+        }
+        self.emit(json!({"ev":"deepops","unit":bytes(&unit),"alts":alts,"ops":ops}));
+    }
+
     // ------------------------------------------------------------ cases
     pub fn run_case(&mut self, case: &Value) {
         for r in self.regs.iter_mut() {
@@ -1167,6 +1238,7 @@ impl<W: Write> Ctx<W> {
                 self.soup(&text);
             }
             "timing" => self.timing(case),
+            "deepops" => self.deepops(case),
             "steps" => {
                 if let Some(steps) = case.get("steps").and_then(|x| x.as_array()) {
                     for s in steps {
